@@ -1,7 +1,7 @@
 PROP = {
     "id": "C38",
     "theorem_modules": ["Verif.Properties.C38"],
-    "min_theorems": 11,
+    "min_theorems": 14,
     "required_theorems": [
         "Verif.Properties.C38.tables_consistent",
         "Verif.Properties.C38.tables_pinned",
@@ -11,8 +11,11 @@ PROP = {
         "Verif.Properties.C38.int_literal_member_fixed",
         "Verif.Properties.C38.negative_literal_postfix_fixed",
         "Verif.Properties.C38.ref_of_ref_witness",
+        "Verif.Properties.C38.powers_linear",
+        "Verif.Properties.C38.expr_parse_print",
         "Verif.Properties.C38.expr_roundtrip_partial",
-        "Verif.Properties.C38.string_escape_roundtrip_partial",
+        "Verif.Properties.C38.type_roundtrip",
+        "Verif.Properties.C38.string_escape_roundtrip",
     ],
     "gen": [["vtool", "gen-prectables"]],
     "tool_files": ["tool_prectables.go"],
@@ -25,19 +28,25 @@ PROP = {
     "technique": "Lean 4 proof over ports of the printer's parenthesisation logic and of the parser's Pratt core + fact "
                  "extraction of the precedence / binding-power tables (decide) + correspondence stream with a Go-only "
                  "round-trip oracle on generated expressions, types and whole programs",
-    "level_text": "PARTIAL. FX: the AST precedence table (ast/precedence.go, precedence() methods) and the parser's binding "
-                  "powers / associativity (parser/expression.go) are regenerated on every run and proved order-isomorphic "
-                  "level by level (tables_consistent, by decide) and pinned in shape (tables_pinned, kind_precedences_pinned, "
-                  "other_powers_pinned). Theorems on the ports: round trip for the atoms fragment (expr_roundtrip_partial; the "
-                  "full statement for the ports' fragment is NOT proved - it is exercised per input by the stream), quoting "
-                  "round trip for strings without \\u escapes (string_escape_roundtrip_partial), kernel-checked witnesses of the "
-                  "repaired defects (move_in_cast_fixed, int_literal_member_fixed, negative_literal_postfix_fixed) and of the "
-                  "recorded one (ref_of_ref_witness). CC stream `pp`: grammar-generated expressions (sub-expressions "
-                  "parenthesised at random so every tree shape occurs), types, whole programs (all declaration / statement "
-                  "forms the generator covers), strings: Go parse -> Prettier(Doc) -> re-parse -> AST JSON equality modulo "
-                  "positions (direct oracle, Go alone; failing programs are shrunk to the smallest failing sub-expression); "
-                  "inside the ports' fragment additionally port print = Go print token for token, port parse = Go parse on the "
-                  "source tokens and on the printed tokens, port round trip.",
+    "level_text": "PROOF on the ports' fragment + CC. FX: the AST precedence table (ast/precedence.go, precedence() methods) "
+                  "and the parser's binding powers / associativity (parser/expression.go) are regenerated on every run, proved "
+                  "order-isomorphic level by level (tables_consistent), numerically linear (powers_linear: power = 10*(rank+1), "
+                  "the bridge of the Pratt argument) and pinned in shape (tables_pinned, kind_precedences_pinned, "
+                  "other_powers_pinned). Theorems on the ports, for ALL inputs: expr_roundtrip_partial = parseAll (printE e) = "
+                  "some e for every well-formed expression of the fragment (prefix operators, references, force, all 19 "
+                  "binary operators with associativity, casts with type annotations, conditional, member / index access, "
+                  "literals, arbitrarily nested) by the standard Pratt induction (expr_parse_print: the generalised statement "
+                  "over right binding power and token suffix); well-formedness = parser-producible minus the recorded findings "
+                  "(&(&x), comparison chains); type_roundtrip for the type sub-language (nominal / optional / reference incl. "
+                  "the lexer's ?? merging); string_escape_roundtrip for every string incl. \\u{...}; kernel-checked witnesses of "
+                  "the repaired defects and of the recorded one (ref_of_ref_witness). `_partial`: invocation, array / dictionary "
+                  "/ string / path literals, create / destroy / attach, function expressions, statements and declarations are "
+                  "not in the ports - CC only. CC stream `pp`: grammar-generated expressions (sub-expressions parenthesised at "
+                  "random so every tree shape occurs), types, whole programs, strings: Go parse -> Prettier(Doc) -> re-parse -> "
+                  "AST JSON equality modulo positions (direct oracle, Go alone; failing programs are shrunk to the smallest "
+                  "failing sub-expression); inside the ports' fragment additionally port print = Go print token for token, port "
+                  "parse = Go parse on the source tokens and on the printed tokens, port round trip; every op is tagged wf / "
+                  "non-wf (inside / outside the theorem's domain).",
     "level_note": "Trusted: Lean kernel; the hand-written ports (validated by the stream on every run); vtool gen-prectables "
                   "(go/ast extraction); harness (AST JSON stripping of position fields, S-expression serialisation) and driver. "
                   "The ports render documents flat: the effect of line breaks on the parser (newline before `(`, `[`, `!`; "
